@@ -68,12 +68,19 @@ def fasta_case(rng, d, tagged=False, two_hap=False, t=None):
     }
 
 
-def text_case(rng, d, fmt="tpf", tagged=False, two_hap=False, t=None, mode=None, strands=None, unprefixed=False, primary=None):
+def text_case(rng, d, fmt="tpf", tagged=False, two_hap=False, t=None, mode=None, strands=None, unprefixed=False, primary=None, nhap=None):
     d = Path(d)
     d.mkdir(parents=True, exist_ok=True)
     t = t or gasm.pick_texel(rng)
     design = None
-    if two_hap:
+    if nhap:
+        res = None
+        while res is None:
+            res = gtag.gen_multi_hap_primary(rng, t, nhap)
+        inp, pt, design = res
+        labels = set(design["labels"])
+        pieces = design["pieces"]
+    elif two_hap:
         res = None
         while res is None:
             res = gtag.gen_two_hap(rng, t, unprefixed=unprefixed and (primary or rng.random() < 0.7), primary=primary)
